@@ -13,6 +13,7 @@ pub mod iosim;
 pub mod model;
 pub mod pv;
 pub mod props;
+pub mod refcy;
 
 use engine::{Mode, RunCtx, Tier};
 
